@@ -126,6 +126,19 @@ func fieldsOf(c types.EthereumClaim) []fld {
 	return out
 }
 
+// wireCopy returns the claim as it reads back after one protobuf marshal/unmarshal round trip.
+func wireCopy(c types.EthereumClaim) types.EthereumClaim {
+	bz, err := proto.Marshal(c.(proto.Message))
+	if err != nil {
+		panic(err)
+	}
+	n := reflect.New(reflect.TypeOf(c).Elem()).Interface().(proto.Message)
+	if err := proto.Unmarshal(bz, n); err != nil {
+		panic(err)
+	}
+	return n.(types.EthereumClaim)
+}
+
 func typeName(c types.EthereumClaim) string { return reflect.TypeOf(c).Elem().Name() }
 
 // notEffect: the fields the property exempts (voter identity, transaction metadata, and the event
@@ -153,6 +166,31 @@ func effectDiff(a, b types.EthereumClaim) []string {
 		}
 	}
 	return out
+}
+
+// diffValues prints the values a has in the effect-bearing fields on which a and b differ.
+func diffValues(a, b types.EthereumClaim) string {
+	if typeName(a) != typeName(b) {
+		return typeName(a)
+	}
+	var out []string
+	d := map[string]bool{}
+	for _, n := range effectDiff(a, b) {
+		d[n] = true
+	}
+	for _, f := range fieldsOf(a) {
+		if d[f.Name] {
+			switch f.Kind {
+			case "num":
+				out = append(out, fmt.Sprintf("%s=%d", f.Name, f.Num))
+			case "str":
+				out = append(out, fmt.Sprintf("%s=%q", f.Name, f.Str))
+			default:
+				out = append(out, fmt.Sprintf("%s=%v", f.Name, f.Amt))
+			}
+		}
+	}
+	return strings.Join(out, ",")
 }
 
 // cleanClaim: no '/' (and, for the repaired encoding, no '%') in any string field that is hashed —
